@@ -71,6 +71,10 @@ def cache_state(cache):
     return (d, lst, cache.firstIndex, cache.lastIndex)
 
 
+def slot_state(cache):
+    return sorted((id_of(k), v) for k, v in getattr(cache, 'entriesSlot', {}).items())
+
+
 def do_cache_op(cache, sessions, op):
     try:
         if op[0] == 'get':
@@ -91,7 +95,7 @@ def do_cache_op(cache, sessions, op):
 
 def run_history_impl(n, max_age, hist):
     """hist: [(t, op)], op = ('get',id) | ('put',id,s) | ('purge',) | ('valid',s,b).
-    Returns [(dict, slots, first, last, outcome)] after every call."""
+    Returns [(dict, slots, first, last, outcome, slotmap)] after every call."""
     from tlslite.sessioncache import SessionCache
     sessions = Sessions()
     out = []
@@ -100,7 +104,7 @@ def run_history_impl(n, max_age, hist):
         for t, op in hist:
             clk.now = t
             r = do_cache_op(cache, sessions, op)
-            out.append(cache_state(cache) + (r,))
+            out.append(cache_state(cache) + (r, slot_state(cache)))
     return out
 
 
@@ -203,10 +207,11 @@ def outcome_lit(r):
 
 
 def obs_lit(o):
-    d, lst, f, la, r = o
+    d, lst, f, la, r, sl = o
     dl = '[' + ';'.join('(%s,%s)' % (z(k), z(v)) for k, v in d) + ']'
+    sll = '[' + ';'.join('(%s,%s)' % (z(k), z(v)) for k, v in sl) + ']'
     ll = '[' + ';'.join('None' if s is None else 'Some (%s,%s)' % (z(s[0]), z(int(s[1]))) for s in lst) + ']'
-    return '(%s, %s, %s, %s, %s)' % (dl, ll, z(f), z(la), outcome_lit(r))
+    return '(%s, %s, %s, %s, %s, %s)' % (dl, sll, ll, z(f), z(la), outcome_lit(r))
 
 
 def case_lit(n, max_age, hist, obs):
@@ -282,8 +287,8 @@ def merged_history(scn, pre_hist, order):
 
 
 def window_consistent(n, state):
-    """structural invariant of a cache that was only ever given distinct IDs: the dict holds
-    exactly the IDs of the slots between firstIndex and lastIndex, at most maxEntries-1"""
+    """structural invariant: the dict holds exactly the IDs that occur in the slots between
+    firstIndex and lastIndex (an ID stored again occupies several slots), at most maxEntries-1"""
     d, lst, f, la = state
     if n <= 0:
         return True
@@ -294,7 +299,7 @@ def window_consistent(n, state):
         if s is None:
             return False
         ids.append(s[0])
-    return sorted(ids) == [k for k, _ in d] and len(d) <= n - 1
+    return sorted(set(ids)) == [k for k, _ in d] and len(d) <= n - 1
 
 
 def check_cache_run(scn, run):
